@@ -278,9 +278,11 @@ class AbortPlan:
 
     EXC = {"RecursionError": RecursionError, "MemoryError": MemoryError, "KeyboardInterrupt": KeyboardInterrupt}
 
-    def __init__(self, n=None, exc="RecursionError"):
+    def __init__(self, n=None, exc="RecursionError", wide=False):
+        """wide: count (and abort at) line events in func_adl / jinja2 / qastle frames too, not only in /repo"""
         self.n = n
         self.exc = exc
+        self.wide = wide
         self.count = 0
         self.fired = None
 
@@ -297,13 +299,16 @@ class AbortPlan:
         if event == "line":
             self.count += 1
             if self.n is not None and self.fired is None and self.count > self.n and not self._in_cleanup(frame):
-                self.fired = (os.path.relpath(frame.f_code.co_filename, REPO_PKG), frame.f_lineno)
+                fn = frame.f_code.co_filename
+                self.fired = (os.path.relpath(fn, REPO_PKG) if fn.startswith(REPO_PKG) else "dep:" + "/".join(fn.split("/")[-2:]),
+                              frame.f_lineno)
                 sys.settrace(None)
                 raise self.EXC[self.exc](f"injected {self.exc} (simulated abort)")
         return self._local
 
     def _global(self, frame, event, arg):
-        if frame.f_code.co_filename.startswith(REPO_PKG):
+        fn = frame.f_code.co_filename
+        if fn.startswith(REPO_PKG) or (self.wide and ("/func_adl/" in fn or "/jinja2/" in fn or "/qastle/" in fn)):
             return self._local
         return None
 
